@@ -10,7 +10,6 @@
 #![allow(dead_code)]
 
 use simcore::*;
-use std::cell::Cell;
 use std::collections::{BTreeMap, BTreeSet, HashSet};
 
 use defsrc::{all_definitions, Definition};
@@ -19,33 +18,7 @@ use defsrc::{all_definitions, Definition};
 // The seam: std's hash-key source
 // ---------------------------------------------------------------------------------------------
 
-thread_local! {
-    static KEYS: Cell<Option<[u8; 16]>> = const { Cell::new(None) };
-    static SERVED: Cell<u32> = const { Cell::new(0) };
-}
-
-/// std resolves this symbol (weakly) for `hashmap_random_keys`; defining it here makes the key
-/// source a simulator input. Threads without an assigned slot (harness threads) get the real
-/// system call.
-#[no_mangle]
-pub unsafe extern "C" fn getrandom(buf: *mut u8, len: usize, flags: u32) -> isize {
-    match KEYS.with(|k| k.get()) {
-        Some(bytes) => {
-            for i in 0..len {
-                *buf.add(i) = bytes[i % 16];
-            }
-            SERVED.with(|s| s.set(s.get() + 1));
-            len as isize
-        }
-        None => {
-            extern "C" {
-                fn syscall(num: i64, ...) -> i64;
-            }
-            // SYS_getrandom = 318 on x86_64
-            syscall(318, buf, len, flags) as isize
-        }
-    }
-}
+simcore::define_hash_key_seam!();
 
 #[derive(Clone, Debug)]
 struct ThreadOut {
@@ -58,30 +31,19 @@ struct ThreadOut {
 /// One simulated thread: fresh OS thread, keys installed before anything else runs on it.
 fn simulated_thread(src: &str, keys: [u8; 16]) -> ThreadOut {
     let src = src.to_string();
-    std::thread::Builder::new()
-        .stack_size(64 << 20)
-        .spawn(move || {
-            KEYS.with(|k| k.set(Some(keys)));
-            // canary: the first hash container of this thread; its iteration order is a function of
-            // the keys alone and shows which keys this thread really got. (Taken before generate():
-            // std derives later RandomStates from a per-thread counter, and the number of containers
-            // generate() creates differs on the one thread that initialises its lazy statics.)
-            let canary: HashSet<usize> = (0..8).collect();
-            let canary: Vec<usize> = canary.into_iter().collect();
-            let ts: proc_macro2::TokenStream = src.parse().expect("definition is not Rust");
-            let ts2 = ts.clone();
-            let gen = catch(move || logos_codegen::generate(ts).to_string());
-            let strip = catch(move || logos_codegen::strip_attributes(ts2).to_string());
-            ThreadOut { gen, strip, canary, served: SERVED.with(|s| s.get()) }
-        })
-        .expect("spawn")
-        .join()
-        .expect("simulated thread panicked outside catch")
+    with_hash_keys(keys, move || {
+        // canary: the first hash container of this thread; its iteration order is a function of
+        // the keys alone and shows which keys this thread really got. (Taken before generate():
+        // std derives later RandomStates from a per-thread counter.)
+        let canary: HashSet<usize> = (0..8).collect();
+        let canary: Vec<usize> = canary.into_iter().collect();
+        let ts: proc_macro2::TokenStream = src.parse().expect("definition is not Rust");
+        let ts2 = ts.clone();
+        let gen = catch(move || logos_codegen::generate(ts).to_string());
+        let strip = catch(move || logos_codegen::strip_attributes(ts2).to_string());
+        ThreadOut { gen, strip, canary, served: seam_served_on_this_thread() }
+    })
 }
-
-// ---------------------------------------------------------------------------------------------
-// Workload: definitions
-// ---------------------------------------------------------------------------------------------
 
 // ---------------------------------------------------------------------------------------------
 // One evaluation group: a definition under k key draws
@@ -206,8 +168,19 @@ fn draws_for(seed: u64, index: u64, k: usize) -> Vec<[u8; 16]> {
     v
 }
 
+/// logos-codegen initialises three lazy statics on first use (two regexes, one table). Building them
+/// creates hash containers, which advances std's per-thread RandomState counter on whichever thread
+/// gets there first — that thread would then iterate its maps differently from every other thread
+/// given the same keys. Initialise them on a throw-away thread first, so that every simulated thread
+/// starts from the same state and a replay is exact.
+fn warm_up() {
+    let src = r#"#[derive(Logos)] #[logos(subpattern x = "a.")] enum W { #[regex("(?&x)+")] A, #[regex(".", priority = 0)] B }"#;
+    let _ = simulated_thread(src, [0x5a; 16]);
+}
+
 fn main() {
     install_quiet_panic_hook();
+    warm_up();
     let args = Args::parse();
     let out_path = args.get("out").map(|s| s.to_string());
     let repo = args.get("repo").unwrap_or("/repo").to_string();
